@@ -25,6 +25,7 @@ The process is re-executed with PYTHONHASHSEED=0 (see __main__) because KeyMap k
 one of the findings depends on the hash values; this keeps runs and replays deterministic.
 """
 import copy
+import re
 import io
 import itertools
 import json
@@ -760,9 +761,19 @@ def eval_invalid(payload):
     fails = []
     if not (isinstance(errs, list) and errs and all(isinstance(m, str) and m.strip() for m in errs)):
         fails.append(("C17.validate.invalid_reported", inp, errs, "a non-empty list of messages"))
+    elif "bad_index" in payload:
+        # the list holds the same operation name several times and exactly ONE occurrence is invalid: every message that
+        # names an operation number names the number of that occurrence
+        nums = sorted({int(m.group(1)) for m in (_OPNUM.match(msg) for msg in errs) if m})
+        if nums != [payload["bad_index"] + 1]:
+            fails.append(("C17.validate.invalid_reported", dict(inp, stage="messages name the position of the invalid occurrence"),
+                          {"messages": errs, "operation_numbers_named": nums}, {"operation_numbers_named": [payload["bad_index"] + 1]}))
     if ops != ops0:
         fails.append(("C17.frame.ops_json_unchanged", inp, ops, ops0))
     return True, fails
+
+
+_OPNUM = re.compile(r"\s*Operation(?: dictionary)? (\d+)\b")
 
 
 def eval_cli_invalid(payload):
@@ -1252,6 +1263,64 @@ def invalid_lists():
     return out
 
 
+def invalid_occurrences():
+    """name -> [(why, operation dict)]: every one-operation list of invalid_lists() whose operation is one of the 8"""
+    out = {name: [] for name in OPS8}
+    for why, ops in invalid_lists():
+        if isinstance(ops, list) and len(ops) == 1 and isinstance(ops[0], dict) and ops[0].get("operation") in out:
+            out[ops[0]["operation"]].append((why, ops[0]))
+    good = {name: op_dict(name, a_valid_params(name)) for name in OPS8}
+    for name in OPS8:       # top-level violations for every name (invalid_lists has them for remove_columns only)
+        if name != "remove_columns":
+            o = copy.deepcopy(good[name])
+            del o["description"]
+            out[name].append((f"{name}: missing top-level description", o))
+            o = copy.deepcopy(good[name])
+            o["parameters"] = ["y"]
+            out[name].append((f"{name}: parameters not an object", o))
+    return out
+
+
+def repeated_name_cases(rng, quick):
+    """lists in which ONE operation name occurs 2 or 3 times.
+    invalid: exactly one occurrence (every position) is invalid in one place, the other occurrences are valid and differ from
+    one another (3 valid parameter sets per name, rotated); also with a valid operation of another name put in front or in
+    between, so that the number of the operation in the list differs from the number of the occurrence of the name.
+    valid: 3 occurrences with valid parameter sets on the pair tables (judged step by step by the meaning oracles)"""
+    inv = invalid_occurrences()
+    other = {name: op_dict(OPS8[(i + 3) % len(OPS8)], a_valid_params(OPS8[(i + 3) % len(OPS8)])) for i, name in enumerate(OPS8)}
+    cases = []
+    k = 0
+    for name in OPS8:
+        valids = [a_valid_params(name)] + copy.deepcopy(PAIR_PARAMS[name])
+        for why, bad in inv[name]:
+            k += 1
+            shapes = [(n, pos) for n in (2, 3) for pos in range(n)]
+            cli_shape = shapes[k % len(shapes)]
+            for n, pos in shapes:
+                ops = [copy.deepcopy(bad) if i == pos else op_dict(name, copy.deepcopy(valids[(k + i) % 3])) for i in range(n)]
+                tag = f"{why}; occurrence {pos + 1} of {n} x {name}"
+                cases.append({"kind": "invalid", "why": tag, "ops": ops, "bad_index": pos, "part": "repeated-name"})
+                if (n, pos) == cli_shape:
+                    cases.append({"kind": "cli_invalid", "why": tag, "ops": copy.deepcopy(ops), "part": "repeated-name"})
+                if n == 2 or not quick:
+                    # a valid operation of another name in front (pos 0) / between the occurrences
+                    at = 0 if (k + pos) % 2 == 0 else 1
+                    ops2 = copy.deepcopy(ops)
+                    ops2.insert(at, copy.deepcopy(other[name]))
+                    cases.append({"kind": "invalid", "why": tag + f", {other[name]['operation']} inserted at {at}", "ops": ops2,
+                                  "bad_index": pos + (1 if at <= pos else 0), "part": "repeated-name"})
+    n_inv = len(cases)
+    tabs = pair_tables(rng, 3 if quick else 8)
+    for name in OPS8:
+        P = PAIR_PARAMS[name]
+        for idx in ((0, 1, 0), (1, 0, 1), (0, 0, 1), (1, 1, 0)):
+            for t in tabs:
+                cases.append({"kind": "meaning", "ops": [op_dict(name, copy.deepcopy(P[i])) for i in idx], "table": copy.deepcopy(t),
+                              "part": "repeated-name"})
+    return cases, n_inv, len(cases) - n_inv
+
+
 # ------------------------------------------------------------------------------------------------------------
 # the workload
 # ------------------------------------------------------------------------------------------------------------
@@ -1670,7 +1739,9 @@ def build_cases(w):
             cases.append({"kind": "invalid", "why": why + " (first, before a valid operation)", "ops": copy.deepcopy(ops) + [copy.deepcopy(good)]})
             cases.append({"kind": "cli_invalid", "why": why + " (second, after a valid operation)", "ops": [copy.deepcopy(good)] + copy.deepcopy(ops)})
     n_inv = len(cases) - n0
-    return cases, {"param_sets": counts, "single": n_single, "composed": n_comp, "pairs": n_pairs, "history": n_hist, "invalid": n_inv,
+    rep_cases, n_rep_inv, n_rep_valid = repeated_name_cases(rng, quick)
+    cases += rep_cases
+    return cases, {"repeated": (n_rep_inv, n_rep_valid), "param_sets": counts, "single": n_single, "composed": n_comp, "pairs": n_pairs, "history": n_hist, "invalid": n_inv,
                    "extra": n_extra, "repkeys": rep_counts}
 
 
@@ -1750,6 +1821,14 @@ def run(w: Workload):
            bound="one violation per list (each required key, each type, minItems, uniqueItems, additional key, dependentRequired, "
                  "documented cross-parameter constraints), alone, before and after a valid operation; and through run_remodel.main",
            exhaustive=True)
+    w.part("lists in which one operation name occurs 2-3 times", cases=sum(info["repeated"]),
+           bound="%d lists failing validation: every operation name x every one-place violation of its specification (required key, "
+                 "type, minItems, uniqueItems, additional key, dependentRequired, op-specific input checks, top-level keys) x "
+                 "2 or 3 occurrences of the name x every position of the ONE invalid occurrence, the others valid and different "
+                 "(also with a valid operation of another name in front / in between): messages reported, every operation number "
+                 "named in a message is that of the invalid occurrence; one shape per violation through run_remodel.main (ValueError, "
+                 "no operation executed, file unchanged); %d valid lists of 3 occurrences (4 patterns of the 2 pair parameter sets) x "
+                 "pair tables judged step by step by the meaning oracles" % info["repeated"], exhaustive=False)
     w.not_covered += [
         "pandas semantics beyond the enumerated tables; tables with 0 rows; cell values outside {a,b,n/a,1,1.0} (+ numeric onsets/durations)",
         "summary operations and HED-dependent operations (outside the property)",
